@@ -43,7 +43,7 @@ class HPS(Harness):
         fault = p.get("fault", False)
         fsite = FaultSite(p.get("fault_kind"))
         it = p.get("iter", 5)
-        opts = cached_options(D, {"complete_poll": p.get("complete_poll", False), "accelerate_mesh": p.get("accelerate", True)})
+        opts = cached_options(D, {"complete_poll": p.get("complete_poll", False), "accelerate_mesh": p.get("accelerate", True), **p.get("extra_opts", {})})
         opts["noise_size"] = math.sqrt(opts["tol_fun"]) if level == 0 else 1.0
         if level > 0:
             opts["min_failed_poll_steps"] = np.inf
@@ -126,6 +126,10 @@ class HPS(Harness):
         self.logging_action = [""]
         self.u = sym_array(eng, "u", (D,))
         self.u_best = self.u.copy()
+        if p.get("extra_opts", {}).get("force_poll_mesh") and not eng.concrete:
+            # candidates are re-snapped to the search mesh: the incumbent is a search-mesh point (as every evaluated point is)
+            for d_ in range(D):
+                eng.assume(_raw(self.u)[d_].e == z3.ToReal(z3.Int(f"ugrid{d_}")) * (2.0 ** min(0, k0 * int(opts["search_grid_multiplier"]) - int(opts["search_grid_number"]))))
         self.yval = eng.real("yval")
         if level == 0:
             self.fval = self.yval
